@@ -1105,7 +1105,7 @@ class Dict(Mapping, dict):
           >>> new_user = User(**user_keywords)
 
         """
-        fields = set(self.keys())
+        fields = set(self.field_schema_mapping)
         attributes = fields.copy()
         if rename:
             rename = list(to_pairs(rename))
